@@ -94,6 +94,7 @@ type submission struct {
 	who      func() (eth2p0.ValidatorIndex, bool)     // validator index the submission names (if it names one)
 	sig      func() *eth2p0.BLSSignature              // where the partial signature lives
 	call     func(c *validatorapi.Component) error    // performs the call
+	batch    func(c *validatorapi.Component, items []*submission) error // list endpoints: one call carrying several submissions (nil for single-object endpoints)
 	install  func(w *wiring)                          // registers what the component queries
 	resign   func(key tbls.PrivateKey, bn *fakebn.BN) // re-signs the current content
 }
@@ -259,6 +260,13 @@ func buildAttestation(t *testing.T, cl *cluster, v *validator, me int, seed int6
 	s.call = func(c *validatorapi.Component) error {
 		return c.SubmitAttestations(context.Background(), &eth2api.SubmitAttestationsOpts{Attestations: []*eth2spec.VersionedAttestation{&api}})
 	}
+	s.batch = func(c *validatorapi.Component, items []*submission) error {
+		var list []*eth2spec.VersionedAttestation
+		for _, it := range items {
+			list = append(list, it.api.(*eth2spec.VersionedAttestation))
+		}
+		return c.SubmitAttestations(context.Background(), &eth2api.SubmitAttestationsOpts{Attestations: list})
+	}
 	return s
 }
 
@@ -420,6 +428,14 @@ func buildBeaconSelection(_ *testing.T, cl *cluster, v *validator, me int, seed 
 		_, err := c.BeaconCommitteeSelections(context.Background(), &eth2api.BeaconCommitteeSelectionsOpts{Selections: []*eth2v1.BeaconCommitteeSelection{api}})
 		return err
 	}
+	s.batch = func(c *validatorapi.Component, items []*submission) error {
+		var list []*eth2v1.BeaconCommitteeSelection
+		for _, it := range items {
+			list = append(list, it.api.(*eth2v1.BeaconCommitteeSelection))
+		}
+		_, err := c.BeaconCommitteeSelections(context.Background(), &eth2api.BeaconCommitteeSelectionsOpts{Selections: list})
+		return err
+	}
 	return s
 }
 
@@ -436,6 +452,14 @@ func buildSyncSelection(_ *testing.T, cl *cluster, v *validator, me int, seed in
 		_, err := c.SyncCommitteeSelections(context.Background(), &eth2api.SyncCommitteeSelectionsOpts{Selections: []*eth2v1.SyncCommitteeSelection{api}})
 		return err
 	}
+	s.batch = func(c *validatorapi.Component, items []*submission) error {
+		var list []*eth2v1.SyncCommitteeSelection
+		for _, it := range items {
+			list = append(list, it.api.(*eth2v1.SyncCommitteeSelection))
+		}
+		_, err := c.SyncCommitteeSelections(context.Background(), &eth2api.SyncCommitteeSelectionsOpts{Selections: list})
+		return err
+	}
 	return s
 }
 
@@ -449,6 +473,13 @@ func buildSyncMessage(_ *testing.T, cl *cluster, v *validator, me int, seed int6
 	s.install = func(*wiring) {}
 	s.call = func(c *validatorapi.Component) error {
 		return c.SubmitSyncCommitteeMessages(context.Background(), []*altair.SyncCommitteeMessage{api})
+	}
+	s.batch = func(c *validatorapi.Component, items []*submission) error {
+		var list []*altair.SyncCommitteeMessage
+		for _, it := range items {
+			list = append(list, it.api.(*altair.SyncCommitteeMessage))
+		}
+		return c.SubmitSyncCommitteeMessages(context.Background(), list)
 	}
 	return s
 }
@@ -469,6 +500,13 @@ func buildContribution(t *testing.T, cl *cluster, v *validator, me int, seed int
 	s.install = func(*wiring) {}
 	s.call = func(comp *validatorapi.Component) error {
 		return comp.SubmitSyncCommitteeContributions(context.Background(), []*altair.SignedContributionAndProof{api})
+	}
+	s.batch = func(comp *validatorapi.Component, items []*submission) error {
+		var list []*altair.SignedContributionAndProof
+		for _, it := range items {
+			list = append(list, it.api.(*altair.SignedContributionAndProof))
+		}
+		return comp.SubmitSyncCommitteeContributions(context.Background(), list)
 	}
 	return s
 }
@@ -519,6 +557,13 @@ func buildAggregate(t *testing.T, cl *cluster, v *validator, me int, seed int64)
 	s.install = func(*wiring) {}
 	s.call = func(c *validatorapi.Component) error {
 		return c.SubmitAggregateAttestations(context.Background(), &eth2api.SubmitAggregateAttestationsOpts{SignedAggregateAndProofs: []*eth2spec.VersionedSignedAggregateAndProof{api}})
+	}
+	s.batch = func(c *validatorapi.Component, items []*submission) error {
+		var list []*eth2spec.VersionedSignedAggregateAndProof
+		for _, it := range items {
+			list = append(list, it.api.(*eth2spec.VersionedSignedAggregateAndProof))
+		}
+		return c.SubmitAggregateAttestations(context.Background(), &eth2api.SubmitAggregateAttestationsOpts{SignedAggregateAndProofs: list})
 	}
 	return s
 }
